@@ -14,6 +14,6 @@ if [ "$full" = "--full" ]; then
   python3 /verif/tools/baseline_check.py /repo | head -3
   if [ -f "$d/demo.py" ]; then PYTHONPATH=/repo /venv/bin/python "$d/demo.py" >/dev/null 2>&1; echo "demo with patch: exit $?"; fi
 fi
-cd /verif && ./vcheck $pid $tier 2>&1 | grep -E "VIOLATION|diagnosis|^C[0-9]+ |KNOWN|WARNING|Error|Traceback" | head -12
+cd /verif && VERIF_OUT=/tmp/try_seed_out ./vcheck $pid $tier 2>&1 | grep -E "VIOLATION|diagnosis|^C[0-9]+ |KNOWN|WARNING|Error|Traceback" | head -12
 echo "check exit: ${PIPESTATUS[0]}"
 cd /repo && git checkout -- . && git status --porcelain -- pvl | head
